@@ -246,4 +246,55 @@ theorem C19_additions_slices (pr : K → Tok K) (nd N : ℕ) (fs : List (FrameSp
       = (fs[n]).atoms.map (Lammps.Spec.atomLine pr nd) :=
   slice_emit pr nd N fs hN n hn
 
+/-! ## `read_lammpslog` -/
+
+/-- **Log sections.**  A log made of any leading lines and ANY number `k ≥ 0` of complete thermodynamic sections
+(`Step …` header, any number of rows, `Loop time of …` line, any further lines), where no other line starts with
+`Step ` / `Loop time of ` and the last line of the file is blank or does not start with digits, yields exactly `k`
+tables, in order, table `i` having the header of section `i` and ALL its rows in order. -/
+theorem C19_log_sections (pre : Lines K) (ss : List (Spec.Section K)) (hwf : ∀ s ∈ ss, Spec.SectionWF s)
+    (hpre : ∀ l ∈ pre, Spec.plain l) (last : Line K) (hlast : (Spec.emitLog pre ss).getLast? = some last)
+    (hnum : last.isEmpty = true ∨ Impl.firstNumeric last = false) :
+    Impl.readLog (Spec.emitLog pre ss) = .ok (ss.map fun s => ⟨s.header, s.rows⟩) :=
+  readLog_emit pre ss hwf hpre last hlast hnum
+
+/-- `k` sections give `k` tables -/
+theorem C19_log_count (pre : Lines K) (ss : List (Spec.Section K)) (hwf : ∀ s ∈ ss, Spec.SectionWF s)
+    (hpre : ∀ l ∈ pre, Spec.plain l) (last : Line K) (hlast : (Spec.emitLog pre ss).getLast? = some last)
+    (hnum : last.isEmpty = true ∨ Impl.firstNumeric last = false) :
+    (Impl.readLog (Spec.emitLog pre ss)).toOption.map List.length = some ss.length := by
+  rw [C19_log_sections pre ss hwf hpre last hlast hnum]
+  simp [Except.toOption]
+
+/-- non-vacuity: a two-section log with noise lines and a blank line -/
+def exLog : List (Spec.Section ℚ) :=
+  [ ⟨[.word "Step", .word "Temp"], [[.int 0, .num (3/2)], [.int 10, .num (7/4)]],
+      [.word "Loop", .word "time", .word "of", .num (1/100), .word "on"], [[], [.word "run", .int 5]]⟩,
+    ⟨[.word "Step", .word "Temp", .word "Press"], [],
+      [.word "Loop", .word "time", .word "of", .num (1/50), .word "on"], [[.word "Total", .word "wall", .word "time:"]]⟩ ]
+
+example : (∀ s ∈ exLog, Spec.SectionWF s) ∧
+    Impl.readLog (Spec.emitLog [[.word "LAMMPS"]] exLog) = .ok (exLog.map fun s => ⟨s.header, s.rows⟩) := by
+  have hwf : ∀ s ∈ exLog, Spec.SectionWF s := by
+    intro s hs
+    simp only [exLog, List.mem_cons, List.not_mem_nil, or_false] at hs
+    rcases hs with rfl | rfl
+    · exact ⟨⟨rfl, rfl⟩, ⟨rfl, rfl⟩, by
+        intro l hl
+        simp only [List.mem_cons, List.not_mem_nil, or_false] at hl
+        rcases hl with rfl | rfl <;> exact ⟨rfl, rfl⟩, by
+        intro l hl
+        simp only [List.mem_cons, List.not_mem_nil, or_false] at hl
+        rcases hl with rfl | rfl <;> exact ⟨rfl, rfl⟩⟩
+    · exact ⟨⟨rfl, rfl⟩, ⟨rfl, rfl⟩, (by intro l hl; simp at hl), by
+        intro l hl
+        simp only [List.mem_cons, List.not_mem_nil, or_false] at hl
+        rcases hl with rfl
+        exact ⟨rfl, rfl⟩⟩
+  refine ⟨hwf, C19_log_sections _ _ hwf ?_ [.word "Total", .word "wall", .word "time:"] rfl (Or.inr rfl)⟩
+  intro l hl
+  simp only [List.mem_cons, List.not_mem_nil, or_false] at hl
+  rcases hl with rfl
+  exact ⟨rfl, rfl⟩
+
 end Pms.AuxIo
